@@ -402,4 +402,103 @@ def extract (c : Cfg) (i : Inputs) : Option (List ER) :=
   if i.src.isEmpty then some []
   else (extractPre c i).map fun r => expandHalf r (loopState c i).nums i.half
 
+/-! ### `BaseMergedUnitExtractor` (currency): `__merge_pure_number` and `__merged_compound_units` as span arithmetic.
+Parameters: the unit extractor's results (`NumberWithUnitExtractor.extract`, above), the number extractor's results, and
+`gapOK b e` = "the lower-cased stripped text `source[b:e]` is matched by `compound_unit_connector_regex` at position 0 and
+is a single word" (regex; the blank case `not middle_str` is modelled). -/
+
+structure Item where
+  start : Nat
+  len : Nat
+  text : Str
+  isNum : Bool      -- type == Constants.SYS_NUM
+  typ : Nat         -- the type string as a tag (compared for equality only)
+  nonInt : Bool     -- isinstance(data, ExtractResult) and not str(data.data).startswith("Integer")
+deriving DecidableEq, Repr
+
+/-- the inner `while j < len(ers) and ers[j].start + ers[j].length < num.start: j += 1` -/
+def advanceJ (ers : List Item) (ns : Nat) : Nat → Nat → Nat
+  | 0, j => j
+  | fuel + 1, j =>
+    match ers[j]? with
+    | some e => if e.start + e.len < ns then advanceJ ers ns fuel (j + 1) else j
+    | none => j
+
+def blankOrConn (sp : Nat → Bool) (src : Str) (gapOK : Nat → Nat → Bool) (b e : Nat) : Bool :=
+  (strip sp (slice src b e)).isEmpty || gapOK b e
+
+/-- first loop of `__merge_pure_number`: the numbers that directly follow an extraction (only blanks or the connector in
+between); only the first number after `j` moved is considered -/
+def pureNumbers (sp : Nat → Bool) (src : Str) (gapOK : Nat → Nat → Bool) (ers : List Item) : List Item → Nat → List Item
+  | [], _ => []
+  | n :: ns, j =>
+    let j' := advanceJ ers n.start ers.length j
+    if j' = j then pureNumbers sp src gapOK ers ns j'
+    else
+      match ers[j' - 1]? with
+      | some prev =>
+        if blankOrConn sp src gapOK (prev.start + prev.len) n.start then n :: pureNumbers sp src gapOK ers ns j'
+        else pureNumbers sp src gapOK ers ns j'
+      | none => pureNumbers sp src gapOK ers ns j'
+
+def insertItem (e : Item) : List Item → List Item
+  | [] => [e]
+  | x :: xs => if e.start < x.start then e :: x :: xs else x :: insertItem e xs
+
+def sortItems (l : List Item) : List Item := l.foldl (fun acc e => insertItem e acc) []
+
+/-- `__merge_pure_number` -/
+def mergePureNumber (sp : Nat → Bool) (src : Str) (gapOK : Nat → Nat → Bool) (ers nums : List Item) : List Item :=
+  let unitNumbers := pureNumbers sp src gapOK ers nums 0
+  let ers' := unitNumbers.foldl (fun acc x =>
+    if acc.any (fun er => decide (er.start ≤ x.start) && decide (er.start + er.len ≥ x.start)) then acc else acc ++ [x]) ers
+  sortItems ers'
+
+/-- `groups[]` of `__merged_compound_units` (first loop); a type clash leaves the next entry at its initial 0 -/
+def groupsFrom (sp : Nat → Bool) (src : Str) (gapOK : Nat → Nat → Bool) : Nat → List Item → List Nat
+  | _, [] => []
+  | g, [_] => [g]
+  | g, a :: b :: rest =>
+    let g' :=
+      if a.typ ≠ b.typ ∧ !a.isNum ∧ !b.isNum then 0
+      else if a.nonInt then g + 1
+      else if blankOrConn sp src gapOK (a.start + a.len) b.start then g else g + 1
+    g :: groupsFrom sp src gapOK g' (b :: rest)
+
+/-- a merged result: span, text, whether its type is SYS_NUM, number of members in `data` -/
+structure Group where
+  start : Nat
+  len : Nat
+  text : Str
+  isNum : Bool
+  members : Nat
+deriving DecidableEq, Repr
+
+def setAt (l : List Group) (i : Nat) (g : Group) : List Group :=
+  l.mapIdx fun k x => if k = i then g else x
+
+/-- second loop: `prev` = groups[idx-1] (`none` at idx 0); `none` = `result[group]` raises IndexError -/
+def buildGroups (src : Str) : List (Item × Nat) → Option Nat → List Group → Option (List Group)
+  | [], _, res => some res
+  | (it, g) :: rest, prev, res =>
+    let res1 := if prev ≠ some g then res ++ [⟨it.start, it.len, it.text, it.isNum, 1⟩] else res
+    match rest with
+    | (nx, g2) :: _ =>
+      if g2 = g then
+        match res1[g]? with
+        | some r =>
+          let pe := nx.start + nx.len
+          buildGroups src rest (some g) (setAt res1 g ⟨r.start, pe - r.start, slice src r.start pe, false, r.members + 1⟩)
+        | none => none
+      else buildGroups src rest (some g) res1
+    | [] => buildGroups src rest (some g) res1
+
+/-- `__merged_compound_units` after `__merge_pure_number`: single-member results keep their own type and are dropped when
+they are plain numbers -/
+def mergedCompoundUnits (sp : Nat → Bool) (src : Str) (gapOK : Nat → Nat → Bool) (ers nums : List Item) :
+    Option (List Group) :=
+  let ers' := mergePureNumber sp src gapOK ers nums
+  let gs := groupsFrom sp src gapOK 0 ers'
+  (buildGroups src (ers'.zip gs) none []).map fun res => res.filter fun r => !r.isNum
+
 end RTV.UnitExtract
